@@ -459,6 +459,62 @@ impl Holder for Transp {
 	}
 }
 wrap_holder!(Box, Transp, "Box<repr(transparent) newtype of [Tracked; 3]>");
+/// A transparent newtype whose payload is *skipped*: decoding consumes nothing and must hand over one
+/// default-constructed instance, also through the in-place paths (Box, arrays).
+#[derive(Decode, DecodeWithMemTracking)]
+#[repr(transparent)]
+pub struct SkipT(#[codec(skip)] pub Tracked);
+impl Holder for SkipT {
+	const NAME: &'static str = "repr(transparent) newtype with a skipped Tracked";
+	fn elems(_: usize) -> usize {
+		0
+	}
+	fn input(_: &[u8]) -> Vec<u8> {
+		vec![]
+	}
+	fn sizes() -> Vec<usize> {
+		vec![1]
+	}
+	fn owned(&self) -> usize {
+		1
+	}
+}
+impl Holder for [SkipT; 3] {
+	const NAME: &'static str = "[repr(transparent) newtype with a skipped Tracked; 3]";
+	fn elems(_: usize) -> usize {
+		0
+	}
+	fn input(_: &[u8]) -> Vec<u8> {
+		vec![]
+	}
+	fn sizes() -> Vec<usize> {
+		vec![3]
+	}
+	fn owned(&self) -> usize {
+		3
+	}
+}
+wrap_holder!(Box, SkipT, "Box<repr(transparent) newtype with a skipped Tracked>");
+wrap_holder!(Rc, [SkipT; 3], "Rc<[repr(transparent) newtype with a skipped Tracked; 3]>");
+/// ... next to a field that is decoded
+#[derive(Decode, DecodeWithMemTracking)]
+pub struct SkipNext(#[codec(skip)] pub Tracked, pub Tracked);
+impl Holder for SkipNext {
+	const NAME: &'static str = "struct (skipped Tracked, Tracked)";
+	fn elems(_: usize) -> usize {
+		1
+	}
+	fn input(cmds: &[u8]) -> Vec<u8> {
+		cmds.to_vec()
+	}
+	fn sizes() -> Vec<usize> {
+		vec![1]
+	}
+	fn owned(&self) -> usize {
+		2
+	}
+}
+wrap_holder!(Box, SkipNext, "Box<struct (skipped Tracked, Tracked)>");
 #[derive(Decode, DecodeWithMemTracking)]
 #[repr(transparent)]
 pub struct Transp2 {
@@ -583,16 +639,22 @@ pub fn one<H: Holder>(n: usize, pos: usize, fault: Fault) -> Result<&'static str
 	// not a leak of this call
 	{
 		ledger_reset();
-		let _ = guarded(|| {
+		let r = guarded(|| {
 			let mut s = &input[..];
-			let _ = match fault {
-				Fault::DepthLimit => H::decode_with_depth_limit(16, &mut s).map(drop),
-				Fault::MemLimit => H::decode_with_mem_limit(&mut s, 1 << 40).map(drop),
-				Fault::ContainerDepth => H::decode_with_depth_limit(pos as u32, &mut s).map(drop),
-				Fault::ContainerMem => H::decode_with_mem_limit(&mut s, pos * 8).map(drop),
-				_ => H::decode(&mut s).map(drop),
-			};
+			match fault {
+				Fault::DepthLimit => H::decode_with_depth_limit(16, &mut s),
+				Fault::MemLimit => H::decode_with_mem_limit(&mut s, 1 << 40),
+				Fault::ContainerDepth => H::decode_with_depth_limit(pos as u32, &mut s),
+				Fault::ContainerMem => H::decode_with_mem_limit(&mut s, pos * 8),
+				_ => H::decode(&mut s),
+			}
 		});
+		if let Ok(Ok(v)) = r {
+			// a value that claims more instances than were constructed must not be dropped by the harness
+			if ledger_snapshot().2 != v.owned() as u64 {
+				std::mem::forget(v);
+			}
+		}
 	}
 	ledger_reset();
 	// everything that owns memory from the decode is created and dropped inside the measured region
@@ -618,6 +680,9 @@ pub fn one<H: Holder>(n: usize, pos: usize, fault: Fault) -> Result<&'static str
 				}
 				let owned = v.owned() as u64;
 				if live != owned || constructed != owned + dropped {
+					// the value may contain instances that were never constructed: dropping it would be
+					// undefined behaviour in the harness; leak it instead
+					std::mem::forget(v);
 					return Err(format!(
 						"after a successful decode {} instances are live but the value owns {} (constructed {}, dropped {})",
 						live, owned, constructed, dropped
@@ -678,6 +743,7 @@ pub fn one<H: Holder>(n: usize, pos: usize, fault: Fault) -> Result<&'static str
 fn run_holder<H: Holder>(acc: &mut Acc) {
 	// warm up the panic machinery of this thread outside any measurement
 	let _ = guarded(|| panic!("warm-up"));
+	heartbeat(H::NAME);
 	for n in H::sizes() {
 		let total = H::elems(n);
 		for fault in FAULTS {
@@ -739,6 +805,8 @@ macro_rules! all_holders {
 		$m!(VecOf<[Tracked; 3]>, $($a),*); $m!(VecOf<Box<[Tracked; 3]>>, $($a),*); $m!(VecOf<Vec<Tracked>>, $($a),*);
 		$m!(VecOf<Box<Tracked>>, $($a),*); $m!(VecOf<Transp>, $($a),*);
 		$m!([Box<[Tracked; 2]>; 3], $($a),*); $m!([Vec<Tracked>; 2], $($a),*);
+		$m!(SkipT, $($a),*); $m!([SkipT; 3], $($a),*); $m!(Box<SkipT>, $($a),*); $m!(Rc<[SkipT; 3]>, $($a),*);
+		$m!(SkipNext, $($a),*); $m!(Box<SkipNext>, $($a),*);
 		$m!([ZTracked; 1], $($a),*); $m!([ZTracked; 3], $($a),*); $m!([ZTracked; 8], $($a),*); $m!(Box<[ZTracked; 3]>, $($a),*);
 		$m!(Rc<[ZTracked; 3]>, $($a),*); $m!(Box<ZTracked>, $($a),*); $m!(Vec<ZTracked>, $($a),*); $m!([[ZTracked; 2]; 3], $($a),*);
 	}};
